@@ -375,6 +375,7 @@ func runHT(c *Ctx) (obls []Obl) {
 		}
 	}
 	c.stat("HT", "url_conversions", nConv)
+	htEscape(c, a, h.fns, funcMap)
 	for name, f := range funcMap {
 		res := f.Signature.Results()
 		for i := 0; i < res.Len(); i++ {
